@@ -365,6 +365,16 @@ func viewVerTwoDataTwoPtr(c *vctx, s air.VerTwoDataTwoPtr) *V {
 		fld("ptr2", viewVerOneData(c, p2)))
 }
 
+func viewVerTwoPtr(c *vctx, s air.VerTwoPtr) *V {
+	p1, err := s.Ptr1()
+	c.err("VerTwoPtr.ptr1", err)
+	p2, err := s.Ptr2()
+	c.err("VerTwoPtr.ptr2", err)
+	return sv("VerTwoPtr", !s.IsValid(),
+		fld("ptr1", viewVerOneData(c, p1)),
+		fld("ptr2", viewVerOneData(c, p2)))
+}
+
 func viewVerTwoTwoPlus(c *vctx, s air.VerTwoTwoPlus) *V {
 	p1, err := s.Ptr1()
 	c.err("VerTwoTwoPlus.ptr1", err)
